@@ -221,7 +221,8 @@ class DepSet(boolean.AndRestriction, caching=False):
     @property
     def node_conds(self):
         if self._node_conds is False:
-            object.__setattr__(self, "_node_conds", {})
+            # (left as is: False is what says "no conditionals" elsewhere)
+            return {}
         elif self._node_conds is True:
             nc = {}
 
@@ -249,7 +250,10 @@ class DepSet(boolean.AndRestriction, caching=False):
 
     @property
     def has_conditionals(self):
-        return bool(self._node_conds)
+        # False: none; True: some, node_conds not built yet; a dict: some, and
+        # that dict is empty when every conditional payload is also required
+        # unconditionally ("a x? ( a )"), so its truth value says nothing
+        return self._node_conds is not False
 
     @property
     def known_conditionals(self):
